@@ -125,62 +125,72 @@ pub fn run(args: &Args) -> i32 {
     // the scenario sets judge their own properties into a scratch reporter that is discarded
     let scratch_args = Args { id: "C20-scratch".into(), replay: Some("/dev/null".into()), ..args.clone() };
     let scratch = Arc::new(Reporter::new(&scratch_args, "exploration", "scratch"));
-    let quick_args = Args { tier: crate::common::report::Tier::Quick, ..args.clone() };
     let mut scenarios = 0u64;
-    crate::props::c01::scenarios(&scratch, if args.thorough() { args } else { &quick_args });
-    scenarios += 1;
-    crate::props::c10::scenarios(&scratch, &quick_args);
-    scenarios += 1;
-    crate::props::c18::run_all(&scratch, &quick_args);
-    scenarios += 1;
-    // real TLS front end (Core::listen): SNI-borne credentials label, every host class, refused handshakes
-    crate::props::c05_l2::run_l2(&scratch, &quick_args);
-    scenarios += 1;
-    let swept = error_path_sweep(&rep, args);
-    rep.tally("scenario sets driven", scenarios);
-    rep.tally("error-path sweep requests", swept);
-    secrets::set_extra_headers(vec![]);
-    logcap::disable();
-
-    let needles = secrets::needles();
-    // decoded halves of every planted Basic token
-    let mut all_needles = needles.clone();
-    for n in &needles {
-        use base64::Engine;
-        if let Ok(d) = base64::engine::general_purpose::STANDARD.decode(n) {
-            if let Ok(s) = String::from_utf8(d) {
-                for half in s.splitn(2, ':') {
-                    if half.len() >= 8 { all_needles.push(half.to_string()); }
+    let mut swept = 0u64;
+    let mut templates: BTreeMap<String, u64> = BTreeMap::new();
+    let mut leaks: BTreeMap<String, (u64, serde_json::Value)> = BTreeMap::new();
+    let mut by_level: BTreeMap<String, u64> = BTreeMap::new();
+    let mut total_records = 0usize;
+    let mut planted = 0usize;
+    // thorough = the same scenario sets at several seeds; records are scanned and dropped after every set (bounded memory)
+    let rounds = args.qt(1u64, 12u64);
+    for round in 0..rounds {
+        let quick_args = Args { tier: crate::common::report::Tier::Quick, seed: args.seed.wrapping_add(round * 7919), ..args.clone() };
+        for set in 0..5 {
+            match set {
+                0 => crate::props::c01::scenarios(&scratch, &quick_args),
+                1 => crate::props::c10::scenarios(&scratch, &quick_args),
+                2 => crate::props::c18::run_all(&scratch, &quick_args),
+                // real TLS front end (Core::listen): SNI-borne credentials label, every host class, refused handshakes
+                3 => crate::props::c05_l2::run_l2(&scratch, &quick_args),
+                _ => { if round == 0 { swept = error_path_sweep(&rep, args); } }
+            }
+            scenarios += 1;
+            // ---- scan what this set logged
+            let needles = secrets::needles();
+            // decoded halves of every planted Basic token
+            let mut all_needles = needles.clone();
+            for n in &needles {
+                use base64::Engine;
+                if let Ok(d) = base64::engine::general_purpose::STANDARD.decode(n) {
+                    if let Ok(s) = String::from_utf8(d) {
+                        for half in s.splitn(2, ':') {
+                            if half.len() >= 8 { all_needles.push(half.to_string()); }
+                        }
+                    }
+                }
+            }
+            all_needles.sort();
+            all_needles.dedup();
+            planted = planted.max(all_needles.len());
+            let records = logcap::drain();
+            total_records += records.len();
+            for r in &records {
+                if r.target.starts_with("rustls::client") || r.target.starts_with("tt_verif") || r.target.starts_with("h2::client") {
+                    continue;
+                }
+                if !r.emitted {
+                    // the endpoint's own logger (the real trusttunnel::log_utils logger at max level Trace) refuses this record
+                    rep.tally(&format!("records the endpoint's logger does not write: target {}", r.target.split("::").next().unwrap_or("")), 1);
+                    continue;
+                }
+                rep.evals(1);
+                *by_level.entry(r.level.to_string()).or_insert(0) += 1;
+                let t = format!("{} | {}", r.target, normalise(&r.message, &all_needles));
+                *templates.entry(t.clone()).or_insert(0) += 1;
+                if let Some(n) = all_needles.iter().find(|n| r.message.contains(n.as_str())) {
+                    let e = leaks.entry(t).or_insert_with(|| (0, json!({"kind":"log-leak","level":r.level.to_string(),"target":r.target,
+                        "message":r.message.chars().take(500).collect::<String>(),"matched":if n.len() > 12 { format!("{}...", &n[..12]) } else { n.clone() }})));
+                    e.0 += 1;
                 }
             }
         }
     }
-    all_needles.sort();
-    all_needles.dedup();
-    rep.tally("planted secret values", all_needles.len() as u64);
-    let records = logcap::drain();
-    let mut templates: BTreeMap<String, u64> = BTreeMap::new();
-    let mut leaks: BTreeMap<String, (u64, serde_json::Value)> = BTreeMap::new();
-    let mut by_level: BTreeMap<String, u64> = BTreeMap::new();
-    for r in &records {
-        if r.target.starts_with("rustls::client") || r.target.starts_with("tt_verif") || r.target.starts_with("h2::client") {
-            continue;
-        }
-        if !r.emitted {
-            // the endpoint's own logger (the real trusttunnel::log_utils logger at max level Trace) refuses this record
-            rep.tally(&format!("records the endpoint's logger does not write: target {}", r.target.split("::").next().unwrap_or("")), 1);
-            continue;
-        }
-        rep.evals(1);
-        *by_level.entry(r.level.to_string()).or_insert(0) += 1;
-        let t = format!("{} | {}", r.target, normalise(&r.message, &all_needles));
-        *templates.entry(t.clone()).or_insert(0) += 1;
-        if let Some(n) = all_needles.iter().find(|n| r.message.contains(n.as_str())) {
-            let e = leaks.entry(t).or_insert_with(|| (0, json!({"kind":"log-leak","level":r.level.to_string(),"target":r.target,
-                "message":r.message.chars().take(500).collect::<String>(),"matched":if n.len() > 12 { format!("{}...", &n[..12]) } else { n.clone() }})));
-            e.0 += 1;
-        }
-    }
+    rep.tally("scenario sets driven", scenarios);
+    rep.tally("error-path sweep requests", swept);
+    secrets::set_extra_headers(vec![]);
+    logcap::disable();
+    rep.tally("planted secret values", planted as u64);
     for (k, v) in &by_level { rep.tally(&format!("records at level {}", k), *v); }
     rep.distinct_many(templates.keys().map(|k| common::fnv(k.as_bytes())));
     rep.set("distinct_record_templates", json!(templates.len()));
@@ -192,7 +202,7 @@ pub fn run(args: &Args) -> i32 {
         w["occurrences"] = json!(count);
         rep.violation(&format!("secret in log: {}", t), w);
     }
-    if records.is_empty() {
+    if total_records == 0 {
         rep.inconclusive("no log records captured");
     }
     rep.finish()
